@@ -17,7 +17,7 @@ BUDGET = {"quick": 1200, "thorough": 25000}
 RULE = ("Cases: dimension 1..6, 1..7 x 1..7 points (thorough: up to 16), anisotropic cell "
         "sides e^[-2,2]; coordinates either seeded-uniform up to 1e4 cell lengths away exact multiples of cell/4 (ties at exactly half a cell) or "
         "integer-typed arrays with a non-integer cell, integer image shifts -5..5, "
-        "1..3 SPD precision matrices L L^T.  Oracle: minimum image by fractional reduction "
+        "1..5 SPD precision matrices L L^T (full / diagonal / identity / anisotropic with condition number up to 1e6, mixed in one stack).  Oracle: minimum image by fractional reduction "
         "frac-floor / min(f,1-f) on explicit differences (independent of round()). "
         "Non-trivial: >= 2 point pairs and at least one pair whose minimum-image displacement "
         "differs from the free-space displacement; distinct = SHA-1 of the canonical case.")
@@ -60,8 +60,17 @@ def strategy_(draw, tier):
         Y = draw(hnp.arrays(np.int64, (k, d), elements=st.integers(-20, 20))) * (cell / 4)
     shX = draw(hnp.arrays(np.int64, (n, d), elements=st.integers(-5, 5)))
     shY = draw(hnp.arrays(np.int64, (k, d), elements=st.integers(-5, 5)))
-    s = draw(st.integers(1, 3))
+    s = draw(st.integers(1, 5))
     L = gen.normal(draw, (s, d, d)) + 2 * np.eye(d)
+    # stacks mix full, diagonal, identity and anisotropic (condition number of the precision up to 1e6) matrices in any order
+    for j in range(s):
+        pk = draw(st.sampled_from(["full", "full", "identity", "diagonal", "anisotropic"]))
+        if pk == "identity":
+            L[j] = np.eye(d)
+        elif pk == "diagonal":
+            L[j] = np.diag(np.exp(gen.normal(draw, (d,))))
+        elif pk == "anisotropic":
+            L[j] = gen.orthogonal(draw, d) @ np.diag(10.0 ** draw(hnp.arrays(np.float64, (d,), elements=st.floats(-3, 0, width=32))))
     return {"kind": kind, "cell": cell, "X": X, "Y": Y, "shX": shX, "shY": shY, "L": L}
 
 
